@@ -88,6 +88,11 @@ func c18Alphabet() []c18Event {
 		// a literal that is produced after a step that yields nothing, then updated in place
 		{Name: "literal-after-empty-step", Expr: ".x[] | 5 | . += 1", Doc: "x: []\n", Hist: true},
 		{Name: "string-literal-after-empty-step", Expr: `.x[] | "s" | . += "t"`, Doc: "x: []\n", Hist: true},
+		// one parsed tree, two documents: a pattern put together from the document must be worked out for each of them
+		{Name: "regex-from-document/a", Expr: `.p as $p | .v | test("^\($p)")`, Doc: "p: a\nv: ab\n", Hist: true},
+		{Name: "regex-from-document/b", Expr: `.p as $p | .v | test("^\($p)")`, Doc: "p: b\nv: ab\n", Hist: true},
+		{Name: "match-from-document/a", Expr: `.p as $p | .v | [match("\($p).")] | length`, Doc: "p: a\nv: abab\n", Hist: true},
+		{Name: "match-from-document/b", Expr: `.p as $p | .v | [match("\($p).")] | length`, Doc: "p: x\nv: abab\n", Hist: true},
 		// decoders that leave the header to the parser
 		{Name: "comment-only-doc/no-preprocess", Expr: ".", Doc: "# only a comment\n", Hist: true, NoPre: true},
 		{Name: "identity-comments/no-preprocess", Expr: ".", Doc: "# lead\na: 1 # c\n", Hist: true, NoPre: true},
